@@ -3,6 +3,7 @@ import OrasModel.Driver.V
 import OrasModel.Driver.R
 import OrasModel.Driver.Cp
 import OrasModel.Driver.Fr
+import OrasModel.Driver.O
 open Oras.Driver
 
 structure DState where
@@ -10,6 +11,7 @@ structure DState where
   v : V.St := {}
   cp : Cp.St := {}
   fr : Fr.St := {}
+  o : O.St := {}
 
 def answer (r : Option (α × String × String)) (st : DState) (upd : α → DState) : DState × String :=
   match r with
@@ -27,6 +29,12 @@ def handle (st : DState) (line : String) : DState × String :=
       | none => (st, "bad-op"))
   | "cp" :: rest => answer (Cp.step st.cp rest) st (fun c => { st with cp := c })
   | "fr" :: rest => answer (Fr.step st.fr rest) st (fun c => { st with fr := c })
+  | "o" :: rest =>
+      (match O.step { st.o with why := "" } rest with
+        | some (o', m, s) =>
+          let w := if o'.why.isEmpty then "" else " w=" ++ o'.why
+          ({ st with o := o' }, s!"m={m} s={s}{w}")
+        | none => (st, "bad-op"))
   | "v" :: rest => answer (V.step st.v rest) st (fun v => { st with v := v })
   | _ => (st, "bad-op")
 
